@@ -265,7 +265,7 @@ impl Prop for C07Searches {
 
 // ------------------------------------------------------------------------------ C08
 
-pub const C08_RULE: &str = "(position, depth N, game continuation) with half-move clock 0 so that clock + N + plies < 100: few-piece endgames (2..7 men; 70%) and set-up/reachable middlegames (30%), N in 1..4 (4 for <= 4 men, 3 for <= 7 men, else 2), searched through alpha_beta_search or Game::select_alpha_beta_best_move on ONE SearchContext/Game reused along a generated game continuation of 0..6 further searches (engine move every ply, or engine move + generated reply). Oracle: cache-free, pruning-free minimax over the reference legal moves; leaves and no-move nodes valued as the property states: mate score for the side to move when in check without moves (read from evaluate::score on a canonical mated board for that colour and remaining depth), 0 for stalemate, otherwise evaluate::board_material_score of the position rebuilt from scratch. last_score()/alpha_beta_score() must equal minimax(root, N) and minimax(child after the returned move, N-1) must equal it too. Non-trivial = search with a reused context (prior >= 1), or a tree containing a mate/stalemate inside the horizon; distinct = (root fingerprint, N, prior index).";
+pub const C08_RULE: &str = "(position, depth N, game continuation) with half-move clock 0 so that clock + N + plies < 100: few-piece endgames (2..7 men; 70%) and set-up/reachable middlegames (30%), N in 1..4 (4 for <= 4 men, 3 for <= 7 men, else 2), searched through alpha_beta_search or Game::select_alpha_beta_best_move on ONE SearchContext/Game reused along a generated game continuation of 0..6 further searches (engine move every ply, or engine move + generated reply). Oracle: cache-free, pruning-free minimax over the reference legal moves; leaves and no-move nodes valued as the property states: mate score for the side to move when in check without moves (read from evaluate::score on a canonical mated board for that colour and remaining depth), 0 for stalemate, otherwise evaluate::board_material_score of the position rebuilt from scratch. last_score()/alpha_beta_score() must equal minimax(root, N) and minimax(child after the returned move, N-1) must equal it too. Plus a complete enumeration of K+P(7th) v K positions (both colours) in which promoting to a queen stalemates, searched at depth 1..2(3). Non-trivial = search with a reused context (prior >= 1), or a tree containing a mate/stalemate inside the horizon; distinct = (root fingerprint, N, prior index).";
 
 struct MateTable {
     white_mated: Vec<i16>,
@@ -522,6 +522,142 @@ impl Prop for C08Searches {
         }
         Ok(())
     }
+}
+
+/// Complete enumeration of king + pawn-on-the-seventh v king (both colours) restricted to the
+/// positions in which promoting to a queen stalemates: the best move is an under-promotion or
+/// a king move, so move ordering / pruning / candidate filtering must not lose it.
+fn run_c08_underpromotion(env: &Env, agg: &mut Stats) -> Option<Violation> {
+    let name = "C08/underpromotion";
+    let mut cases: Vec<Pos> = Vec::new();
+    for white in [true, false] {
+        let (pr, last): (u8, u8) = if white { (6, 7) } else { (1, 0) };
+        let (own, opp) = if white { (Side::White, Side::Black) } else { (Side::Black, Side::White) };
+        for pf in 0..8u8 {
+            for ok in 0..64u8 {
+                for ek in 0..64u8 {
+                    let ps = pr * 8 + pf;
+                    let target = last * 8 + pf;
+                    if ok == ek || ok == ps || ek == ps || ok == target || ek == target {
+                        continue;
+                    }
+                    let mut p = Pos::empty();
+                    p.sq[ps as usize] = Some((P::Pawn, own));
+                    p.sq[ok as usize] = Some((P::King, own));
+                    p.sq[ek as usize] = Some((P::King, opp));
+                    p.side = own;
+                    if p.consistent().is_err() {
+                        continue;
+                    }
+                    let q = Mv {
+                        kind: Kind::Promo,
+                        from: ps,
+                        to: target,
+                        promo: Some(P::Queen),
+                        cap: None,
+                    };
+                    if !p.legal_moves().contains(&q) {
+                        continue;
+                    }
+                    if p.make(&q).is_stalemate() {
+                        cases.push(p);
+                    }
+                }
+            }
+        }
+    }
+    // one ply earlier: the defending king steps into such a position (inner-node variant)
+    let mut earlier: Vec<Pos> = Vec::new();
+    for p in &cases {
+        let opp = p.side.other();
+        let ek = p.king_sq(opp).unwrap();
+        for df in -1i8..=1 {
+            for dr in -1i8..=1 {
+                if let Some(from) = sq_of(file_of(ek) + df, rank_of(ek) + dr) {
+                    if from == ek || p.sq[from as usize].is_some() {
+                        continue;
+                    }
+                    let mut q = p.clone();
+                    q.sq[from as usize] = q.sq[ek as usize].take();
+                    q.side = opp;
+                    if q.consistent().is_ok() && q.legal_moves().iter().any(|m| m.from == from && m.to == ek) {
+                        earlier.push(q);
+                    }
+                }
+            }
+        }
+    }
+    earlier.sort_by_key(|p| p.fingerprint());
+    earlier.dedup_by_key(|p| p.fingerprint());
+    let n_root = cases.len();
+    cases.extend(earlier);
+    agg.count("queen_promotion_stalemates_root", n_root as u64);
+    agg.exhaustive = Some("all K+P(7th) v K positions, both colours, in which promoting to a queen stalemates, and their predecessors by a move of the defending king".into());
+    let depths: &[u8] = env.tier.pick(&[1, 2], &[1, 2, 3]);
+    let results: Vec<(Stats, Option<(Pos, Failure)>)> = cases
+        .par_iter()
+        .map(|pos| {
+            let mut st = Stats::default();
+            for &depth in depths {
+                if depth == 1 && pos.legal_moves().iter().all(|m| m.kind != Kind::Promo) {
+                    continue; // a predecessor: the promotion is two plies away
+                }
+                st.eval();
+                let mut info = MinimaxInfo {
+                    terminal_inside: false,
+                    nodes: 0,
+                };
+                let want = minimax(pos, depth, &mut info);
+                let mut board = to_board(pos);
+                let mut g = MoveGenerator::new();
+                let mut ctx = SearchContext::new(depth);
+                let r = no_panic(|| pool(1).install(|| alpha_beta_search(&mut ctx, &mut board, &mut g)));
+                let fail = |m: String| Some((pos.clone(), Failure::new(m).with(json!({"fen": pos.fen(), "depth": depth}))));
+                match r {
+                    Ok(Ok(mv)) => {
+                        let m = mv_of(&mv);
+                        st.nontrivial(pos.fingerprint() ^ depth as u64, || json!({"fen": pos.fen(), "depth": depth, "minimax": want, "engine_move": mv_text(&m)}));
+                        if ctx.last_score() != Some(want) {
+                            return (st, fail(format!("depth-{} search of {} reports {:?}, exact minimax is {}", depth, pos.fen(), ctx.last_score(), want)));
+                        }
+                        let mut i2 = MinimaxInfo {
+                            terminal_inside: false,
+                            nodes: 0,
+                        };
+                        let child = minimax(&pos.make(&m), depth - 1, &mut i2);
+                        if child != want {
+                            return (st, fail(format!("depth-{} search of {} returned {} (value {}) but the minimax value is {}", depth, pos.fen(), mv_text(&m), child, want)));
+                        }
+                    }
+                    Ok(Err(e)) => return (st, fail(format!("search of {} failed: {:?}", pos.fen(), e))),
+                    Err(m) => return (st, fail(format!("search of {} panicked: {}", pos.fen(), m))),
+                }
+            }
+            (st, None)
+        })
+        .collect();
+    let mut v = None;
+    for (st, f) in results {
+        agg.merge(st);
+        if v.is_none() {
+            if let Some((pos, f)) = f {
+                v = Some(violation(name, json!({"fen": pos.fen()}), f));
+            }
+        }
+    }
+    agg.count("queen_promotion_stalemates_enumerated", cases.len() as u64);
+    v
+}
+
+pub fn c08_checks() -> Vec<Box<dyn DynCheck>> {
+    vec![
+        Box::new(C08Searches),
+        Box::new(FnCheck {
+            name: "C08/underpromotion",
+            run: run_c08_underpromotion,
+            replay: |_| Err("deterministic enumeration: re-run the check".into()),
+        }),
+    ]
 }
 
 // ------------------------------------------------------------------------------ C10
